@@ -341,7 +341,10 @@ class C30(Prop):
         if k == "sset":
             S = A([s[0] for s in case["segs"]])
             E = A([s[1] for s in case["segs"]])
-            d, cp = D.segment_set(S, E)
+            try:
+                d, cp = D.segment_set(S, E)
+            except (IndexError, ValueError) as e:
+                return {"error": f"{type(e).__name__}: {e}"}
             return {"d": [[float(x) for x in row] for row in d],
                     "cp": [[[float(x) for x in cp[i, j]] for j in range(cp.shape[1])]
                            for i in range(cp.shape[0])]}
@@ -402,6 +405,8 @@ class C30(Prop):
                     return "returned closest points do not realise the returned distance"
             return None
         if k == "sset":
+            if "error" in res:
+                return "implementation raised " + res["error"]
             segs = case["segs"]
             n = len(segs)
             for i in range(n):
@@ -487,7 +492,8 @@ class C30(Prop):
         return True
 
     def finding_key(self, case, res, why):
-        return f"{case['kind']}: {why.split(' ')[0]} {why.split(' ')[1] if ' ' in why else ''}"
+        w = why.split(" ")
+        return f"{case['kind']}: {' '.join(w[:3])}".rstrip(":")
 
     def shrink(self, case, still_fails):
         for key in ("set", "pts", "segs"):
